@@ -1609,14 +1609,21 @@ Qed.
 
 Lemma cm_cells_f32 {L} (lltb leqb : L -> L -> bool) (H : label_order lltb leqb) pred truth i j d :
   let cs := classes lltb leqb pred truth in
-  (i < length cs)%nat -> (j < length cs)%nat -> (N.of_nat (length pred) <= 262144)%N ->
+  (i < length cs)%nat -> (j < length cs)%nat ->
+  (N.of_nat (count_pairs leqb (nth i cs d) (nth j cs d) pred truth) <= 16777216)%N ->
   get B32_ops (cm_count B32_ops leqb cs pred truth) i j
   = of_N B32_ops (N.of_nat (count_pairs leqb (nth i cs d) (nth j cs d) pred truth)).
 Proof.
   destruct H as [H1 H2 H3 H4]. intros cs Hi Hj Hn.
   rewrite (cm_cells_iter leqb H1 B32_ops cs pred truth i j d (classes_nodup lltb leqb H1 H2 H3 H4 pred truth) Hi Hj).
-  apply f32_count_exact. pose proof (count_pairs_le leqb (nth i cs d) (nth j cs d) pred truth). lia.
+  apply f32_count_exact. exact Hn.
 Qed.
+
+(* the hypothesis is satisfiable, and the bound is sharp (F32Exact.f32_succ_saturates) *)
+Example ex_cm_cells_f32 :
+  get B32_ops (cm_count B32_ops N.eqb (classes N.ltb N.eqb [1; 0; 1]%N [1; 1; 1]%N) [1; 0; 1]%N [1; 1; 1]%N) 0 0
+  = of_N B32_ops 2.
+Proof. vm_compute. reflexivity. Qed.
 
 (** * Silhouette *)
 Section SilProofs.
